@@ -216,7 +216,7 @@ func mutateDoc(r *Rng, text string) (string, string, bool) {
 
 // ---- arms
 
-var corruptKinds = []string{"flip", "overwrite", "trunc", "dupblock", "swapblocks", "swaptype", "hashinject", "prefix"}
+var corruptKinds = []string{"flip", "overwrite", "trunc", "dupblock", "swapblocks", "swaptype", "hashinject", "prefix", "crlf", "hash-only", "double-hash", "pem-headers", "weird-key", "weird-key"}
 
 func genC20Corrupt(r *Rng) *Plan {
 	g := NewHistGen(r, "C20")
